@@ -222,18 +222,15 @@ func checkC21(r *core.Run, p *core.Program) {
 	checkIndexPath(r, p, "C21.index-path")
 
 	// ---- shared names ---------------------------------------------------------------------------------------
-	for _, spec := range []struct{ rel, fn string }{{"iterator", "newStructField"}, {"builder", "structBuilderField.applyTags"}} {
+	// each side reaches common.DecodeGoTags from the function that collects a struct's fields (directly or through
+	// whatever helpers it is split into)
+	for _, spec := range []struct{ rel, fn string }{{"iterator", "extractFields"}, {"builder", "newStructBuilderGenerator"}} {
 		f := findFn(p, spec.rel, spec.fn)
 		if f == nil {
 			r.Undecided("C21.shared-names", spec.rel+"."+spec.fn)
 			continue
 		}
-		uses := false
-		inspectCalls(f.Pkg.TypesInfo, f.Decl.Body, func(call *ast.CallExpr, c *types.Func) {
-			if c != nil && isFunc(c, "internal/common", "DecodeGoTags") {
-				uses = true
-			}
-		})
+		uses := a.reaches(f.Obj, func(c *types.Func) bool { return isFunc(c, "internal/common", "DecodeGoTags") })
 		r.Check("C21.shared-names", spec.rel+"."+spec.fn+"|name from DecodeGoTags", f.Decl.Pos(), uses, "the field name is not taken from common.DecodeGoTags on this side: tagged names differ between marshaling and unmarshaling")
 	}
 	bld := p.Pkg("builder")
@@ -316,8 +313,17 @@ func checkC21(r *core.Run, p *core.Program) {
 			r.Undecided("C21.shared-names", "builder.structBuilder."+mname)
 			continue
 		}
+		// the lookup may be split off into an unexported helper of the struct builder
+		lookupBodies := &ast.BlockStmt{List: []ast.Stmt{f.Decl.Body}}
+		inspectCalls(binfo, f.Decl.Body, func(call *ast.CallExpr, c *types.Func) {
+			if c != nil && !c.Exported() && c.Pkg() == f.Pkg.Types && recvNamed(c) != nil && recvNamed(c) == recvNamed(f.Obj) {
+				if hd := p.FuncDecl(c); hd != nil && hd.Body != nil {
+					lookupBodies.List = append(lookupBodies.List, hd.Body)
+				}
+			}
+		})
 		// if cfg.CaseInsensitiveStructFieldNames { value = ToStructFieldIdentifier(value) }
-		ast.Inspect(f.Decl.Body, func(n ast.Node) bool {
+		ast.Inspect(lookupBodies, func(n ast.Node) bool {
 			ifs, ok := n.(*ast.IfStmt)
 			if !ok {
 				return true
@@ -339,7 +345,7 @@ func checkC21(r *core.Run, p *core.Program) {
 		})
 		// the map lookup result must be confirmed against the exact name when matching is case-sensitive
 		exact := false
-		ast.Inspect(f.Decl.Body, func(n ast.Node) bool {
+		ast.Inspect(lookupBodies, func(n ast.Node) bool {
 			be, ok := n.(*ast.BinaryExpr)
 			if !ok || (be.Op != token.EQL && be.Op != token.NEQ) {
 				return true
